@@ -323,11 +323,12 @@ def render(seq, case=None, ops=None) -> Rendered:
             blocks0 = list(getattr(sch, "eom_blocks", []) or [])
             is_open = bool(blocks0 and blocks0[-1].tf is None)
         blocks = list(getattr(sch, "eom_blocks", []) or [])
-        if is_open and blocks and sch.slots and sch.slots[-1].ti >= 0:
-            # the channel is left in EOM mode: while it idles (after its last instruction, until the end of the
-            # sequence) its detuning stays at detuning_off.  A CLOSED block leaves nothing behind: detuning 0.
+        if is_open and blocks and sch.slots:
+            # the channel is left in EOM mode: while it idles (after its last instruction — from t = 0 when EOM
+            # mode was enabled on the still empty channel — until the end of the sequence) its detuning stays at
+            # detuning_off.  A CLOSED block leaves nothing behind: detuning 0.
             last = sch.slots[-1]
-            open_eom.append((name, basis, cls, last.tf, float(blocks[-1].detuning_off),
+            open_eom.append((name, basis, cls, max(int(last.tf), 0), float(blocks[-1].detuning_off),
                              [1.0 if (cls == "G" or q in last.targets) else 0.0 for q in ids]))
         seen_first = False
         for slot in sch.slots:
